@@ -24,6 +24,7 @@ import (
 	"github.com/ontio/ontology/common"
 	"github.com/ontio/ontology/smartcontract/service/native/auth"
 	"github.com/ontio/ontology/smartcontract/service/native/utils"
+	"github.com/ontio/ontology/smartcontract/storage"
 )
 
 type lkey struct{ from, to, role string }
@@ -35,11 +36,12 @@ type cspec struct {
 	stored  map[string]map[string]bool // id -> roles for which the contract keeps a token
 	ledger  map[lkey]uint64            // (delegator, delegate, role) -> expiry
 	skipped map[string]bool            // id|role: accepted assignment that stored nothing
+	norec   map[string]bool            // id|role: accepted assignment to an identity WITHOUT any token record while it held the role through a running delegation (the contract must store the token)
 }
 
 func newSpec() *cspec {
 	return &cspec{fns: map[string]map[string]bool{}, named: map[string]map[string]bool{}, stored: map[string]map[string]bool{},
-		ledger: map[lkey]uint64{}, skipped: map[string]bool{}}
+		ledger: map[lkey]uint64{}, skipped: map[string]bool{}, norec: map[string]bool{}}
 }
 func set2(m map[string]map[string]bool, a, b string) {
 	if m[a] == nil {
@@ -96,6 +98,63 @@ func (s *cspec) mayCall(id, fn string, now uint64) (text, code bool, reason stri
 		}
 	}
 	return
+}
+
+// denyClass names the failure "verifyToken refuses a caller to whom the ledger gives a role with
+// the function".  The listed finding (assign-skipped-live-delegation) is the case where the
+// assignee ALREADY HAD a token record when the admin assigned the role during a running
+// delegation; there the ledger itself does not store the role and this function is never reached.
+// When every ground the ledger has for the call is an admin assignment made while the assignee had
+// NO token record at all and held the role only through a running delegation, and the contract
+// indeed keeps no token of that role for the assignee, the refusal is the class
+// assign-skipped-no-record (the contract has to store the token in that case); any other refusal is
+// deny:with-role.
+func (r *runner) denyClass(ci int, id, fn string, now uint64) (class, clause string) {
+	s := r.spec[ci]
+	grounds, norec := 0, 0
+	for rr, fs := range s.fns {
+		if !fs[fn] {
+			continue
+		}
+		if now <= uint64(future) && s.stored[id][rr] {
+			grounds++
+			if s.norec[id+"|"+rr] && !r.tokenKept(ci, id, rr) {
+				norec++
+			}
+		}
+		if _, exp, ok := s.entry(id, rr); ok && now <= exp {
+			grounds++
+		}
+	}
+	if grounds > 0 && grounds == norec {
+		return "assign-skipped-no-record", "verifyToken refuses a caller to whom the admin assigned the role: the caller had no token record at all and held the role only through a running delegation when assignOntIDsToRole was accepted, so the contract had to store the admin's token (an identity without a token record always receives it), but it keeps none; after the delegation ended the caller is refused"
+	}
+	return "deny:with-role", "verifyToken refused (or failed for) a caller who proved its identity and holds a role with the function"
+}
+
+// tokenKept: does the contract's token record of id hold a token of the role (raw record, read
+// without the package's decoders; an unreadable record counts as kept, so that it is not blamed on
+// a skipped assignment).
+func (r *runner) tokenKept(ci int, id, role string) bool {
+	cache := storage.NewCacheDB(r.w.overlay)
+	item, err := utils.GetStorageItem(cache, authKey(r.caddr[ci], 0x03, []byte(id)))
+	if err != nil {
+		return true
+	}
+	if item == nil {
+		return false
+	}
+	d := &recReader{src: common.NewZeroCopySource(item.Value)}
+	n := d.count(len(item.Value))
+	for i := uint32(0); i < n && d.err == ""; i++ {
+		ro := d.varBytes()
+		d.u32()
+		d.u8()
+		if d.err == "" && string(ro) == role {
+			return true
+		}
+	}
+	return d.err != ""
 }
 
 func sigVerdict(v int) (string, bool) {
@@ -236,10 +295,16 @@ func (r *runner) apply(sp *cspec, o *opRec) {
 			id := string(w.ids[p].id)
 			set2(sp.named, id, sR)
 			if len(sp.stored[id]) > 0 && !sp.stored[id][sR] && sp.running(id, sR, now) {
-				// known finding: the contract answers TRUE and stores nothing
+				// known finding (only when the assignee already has a token record): the contract
+				// answers TRUE and stores nothing
 				sp.skipped[id+"|"+sR] = true
 				r.c.Count("assign:skipped-by-live-delegation")
 				continue
+			}
+			if len(sp.stored[id]) == 0 && sp.running(id, sR, now) {
+				// no token record yet: the token is stored although the role is held by delegation
+				sp.norec[id+"|"+sR] = true
+				r.c.Count("assign:no-record-during-live-delegation(stored)")
 			}
 			set2(sp.stored, id, sR)
 		}
@@ -287,7 +352,8 @@ func (r *runner) oracle(h *history, idx int, tbl []int, res string) {
 		case !got && proved && text && !code:
 			r.c.Fail("assign-skipped-live-delegation", "verifyToken refuses a caller to whom the admin assigned the role: assignOntIDsToRole returned true but stored nothing because the caller held the role through a delegation at that moment", in(), res, resTrue)
 		case !got && proved && code:
-			r.c.Fail("deny:with-role", "verifyToken refused (or failed for) a caller who proved its identity and holds a role with the function", in(), res, resTrue)
+			class, clause := r.denyClass(o.C, sA, w.fns[o.Fn], uint64(o.Now))
+			r.c.Fail(class, clause, in(), res, resTrue)
 		case res != exp:
 			r.c.Fail("result:verify", "verifyToken answered differently from the specification ("+why+")", in(), res, exp)
 		}
@@ -388,11 +454,16 @@ func (r *runner) probeAll(h *history, idx int, ci int, now uint32, only []int) {
 			if res == resTrue {
 				r.c.Fail("grant:without-role", fmt.Sprintf("after step %d verifyToken confirms account %d for %q at time %d although it holds no role with that function (expired, withdrawn or foreign delegation, unassigned function or role)", idx, a, fn, now), in, res, resFalse)
 			} else {
-				want := resFalse
+				want, class := resFalse, "deny:with-role"
+				msg := fmt.Sprintf("after step %d verifyToken refuses (or fails for) account %d and %q at time %d although it proved its identity and the ledger gives it a role with that function", idx, a, fn, now)
 				if code {
 					want = resTrue
+					if cl, _ := r.denyClass(ci, string(id.id), fn, uint64(now)); cl != class {
+						class = cl
+						msg = fmt.Sprintf("after step %d verifyToken refuses (or fails for) account %d and %q at time %d although the admin assigned it a role with that function in an accepted assignOntIDsToRole: the account had no token record at all and held the role only through a running delegation at that moment, so the token had to be stored (an identity without a token record always receives it); the delegation has ended since", idx, a, fn, now)
+					}
 				}
-				r.c.Fail("deny:with-role", fmt.Sprintf("after step %d verifyToken refuses (or fails for) account %d and %q at time %d although it proved its identity and the ledger gives it a role with that function", idx, a, fn, now), in, res, want)
+				r.c.Fail(class, msg, in, res, want)
 			}
 		}
 	}
